@@ -19,3 +19,9 @@ Print Assumptions C06_fold_bwd.
 Theorem C06_fold_restrict_ext : forall (atom : Type) (aux : atom -> Prop) (F : Type) (fsat : interp atom -> interp atom -> F -> Prop) (Hd : Type) (Q : trule atom F Hd -> Prop) (T : interp atom), noaux atom aux T -> forall a : atom, restrict atom aux (ext atom aux F fsat Hd Q T T) a <-> T a.
 Proof. exact (@Fold.fold_restrict_ext). Qed.
 Print Assumptions C06_fold_restrict_ext.
+
+From NGO Require Import Syntax.Ast Sem.Sym Sem.Sat Meta.Cleanup Link.Ground.
+
+Theorem C06_ground_stable_iff : forall (sym_lt : sym -> sym -> Prop) (P : program), simple_prog P = true -> forall (I : list gatom) (T : Sym.interp), Sat.stable sym_lt P I T <-> stable gatom gF gsat (ground_prog sym_lt P I) T.
+Proof. exact (@ground_stable_iff). Qed.
+Print Assumptions C06_ground_stable_iff.
